@@ -42,6 +42,8 @@ def run_operator_case(case, prop, configs, weakly, want, nq=8, cinf_bounds=(5, 5
     """One base, nq queries, every configuration in `configs`; judge every row by M3/M5."""
     rng = gen.rng_for(case['seed'], prop, case['idx'])
     fam = case.get('family')
+    if case.get('witness') is not None:
+        return run_witness_case(case, prop, configs, weakly)
     kw = {}
     if 'c-inference' in [c[0] for c in configs]:
         kw = dict(nat=rng.randint(2, cinf_bounds[0]), ncond=rng.randint(1, cinf_bounds[1]))
@@ -249,6 +251,61 @@ def run_operator_case(case, prop, configs, weakly, want, nq=8, cinf_bounds=(5, 5
     res['sample'] = {'base': bdesc, 'mode': mode, 'family': fam, 'via': via,
                      'queries': [fml.cond_text(*q) for q in qs[:4]],
                      'definition_answers': {s: [r[0] for r in v[:4]] for s, v in ref_by_sys.items()}}
+    return res
+
+
+def run_witness_case(case, prop, configs, weakly):
+    """one entry of the witness corpus (vf/witness.py): its own queries plus generated tie-forcing ones, every
+    configuration, judged by the reference semantics"""
+    from .. import witness
+    from parser.Wrappers import parse_belief_base, parse_queries
+    rng = gen.rng_for(case['seed'], prop, 'w', case['witness'])
+    name, sigt, rules, qtexts, extended_only = witness.WITNESSES[case['witness']]
+    res = {'evals': 0, 'nontrivial': [], 'violations': [], 'inconclusive': [], 'counters': {'witness_cases': 1}}
+    if extended_only and not weakly:
+        return res
+    bb0 = parse_belief_base(witness.text(sigt, rules))
+    sig = list(bb0.signature)
+    conds = [(fml.from_pysmt(c.consequence), fml.from_pysmt(c.antecedence)) for c in bb0.conditionals.values()]
+    qs = [(fml.from_pysmt(c.consequence), fml.from_pysmt(c.antecedence))
+          for c in parse_queries(','.join(qtexts)).conditionals.values()]
+    if len(sig) <= 7:
+        qs += gen.gen_queries(rng, sig, conds, 4, p_tie=0.8, extra_atom_p=0.0)
+    base = rm.Base(sig, conds)
+    setup = rm.Setup(base, weakly)
+    if not setup.ok:
+        return res
+    mode = 'extended' if weakly else 'strict'
+    bdesc = {'witness': name, 'sig': sig, 'conds': rules}
+    csys = None
+    for (system, p) in configs:
+        if system == 'c-inference' and len(conds) > 6:
+            continue
+        if system == 'c-inference' and csys is None:
+            csys = cref.CSys(base)
+        cname = impl.cfg_name(system, p)
+        try:
+            got = impl.results(impl.ask(impl.mk_bb(sig, conds), system, p, impl.mk_queries(qs), weakly=weakly))
+        except BaseException as e:  # noqa
+            if type(e).__name__ == 'SoftTimeout':
+                raise
+            res['violations'].append({'sig': '%s:%s:exception:%s' % (cname, mode, type(e).__name__),
+                                      'detail': {'base': bdesc, 'error': str(e)[:200]}})
+            continue
+        for qi, (B, A) in enumerate(qs):
+            qv, qf = base.q(B, A)
+            exp, note = oracle_answer(setup, csys, system, qv, qf)
+            res['evals'] += 1
+            if exp is None:
+                continue
+            if (qv & setup.feas) and (qf & setup.feas):
+                res['nontrivial'].append(h(bdesc, fml.cond_text(B, A), cname, mode))
+            if got[qi] != exp:
+                res['violations'].append({
+                    'sig': '%s:%s:wrong-answer(impl=%s,def=%s)' % (cname, mode, got[qi], exp),
+                    'detail': {'base': bdesc, 'query': fml.cond_text(B, A), 'impl': got[qi], 'definition': exp,
+                               'witness': name}})
+    res['sample'] = {'witness': name, 'base': bdesc, 'mode': mode, 'queries': [fml.cond_text(*q) for q in qs[:3]]}
     return res
 
 
